@@ -424,7 +424,11 @@ func cmdCheck(args []string) {
 	}
 	ev := &Evidence{PropertyID: *prop, Tier: *tier, Seed: *seed, Level: *level, WallS: round3(time.Since(t0).Seconds()), Violations: violations}
 	ev.Coverage = map[string]interface{}{
-		"obligations":              nObl,
+		// the proof claim covers the obligations generated minus those listed as known findings: a known-finding
+		// obligation is a clause that FAILS on this tree (reported on every run, never counted as proved)
+		"obligations":              nObl - len(knownHit),
+		"obligations_generated":    nObl,
+		"known_finding_obligations": len(knownHit),
 		"discharged":               discharged,
 		"checker_cmd":              "/verif/bin/govc " + strings.Join(os.Args[1:], " "),
 		"trusted_base":             trusted,
@@ -441,7 +445,7 @@ func cmdCheck(args []string) {
 		"samples":                  samples,
 		"explanation":              propExplanation[*prop],
 		"evaluations":              len(rs),
-		"distinct_nontrivial":      nObl,
+		"distinct_nontrivial":      nObl - len(knownHit),
 		"rule":                     "one SMT query per (obligation, path); an obligation counts once and is discharged only if every path's query is unsat (cover obligations: sat)",
 	}
 	ev.Assumptions = append([]string{}, propAssumptions[*prop]...)
